@@ -303,6 +303,216 @@ def run(chk, tier):
         chk.bad("R09.7", "resolve_args|two arguments", "call arguments (x0, x1): every code block must be evaluated by run_raw in order, its failure must fail the call, plain values pass - whatever a block "
                                                         "looks like (a constant-folded failing argument such as `max(2, 1/0)` must not reach the callee as a value); implementation only: %s; expected only: %s"
                 % (sorted(norm_ra - want_ra, key=str)[:2], sorted(want_ra - norm_ra, key=str)[:2]), ra.file)
+    # ---------------- R09.8 run-dependence of the compile-time evaluation
+    chk.rule("R09.8", "a call is frozen only if its compile-time evaluation read nothing a later execution may see differently: the interpreter marks every read of an unbound name "
+                      "(the failed value can be absorbed by `in`, map equality, has, coalesce - so scanning the result is not enough) and every construction of a timestamp from no "
+                      "arguments (however the type was reached: by name, as a type value, as an element); child interpreters share the mark; check_for_const tests it after the run")
+    IPFX = "rscel::interp::"
+
+    def switch_after(body, blk):
+        cur_ = body.blocks[blk]["term"].get("t")
+        for _ in range(6):
+            if cur_ is None:
+                return None
+            t2_ = body.blocks[cur_]["term"]
+            if t2_ and t2_["k"] == "switch":
+                zero_ = [c_[1] for c_ in t2_["cases"] if int(c_[0]) == 0]
+                one_ = [c_[1] for c_ in t2_["cases"] if int(c_[0]) == 1]
+                return (one_[0] if one_ else t2_["otherwise"]), (zero_[0] if zero_ else t2_["otherwise"])
+            su_ = body.succs(cur_)
+            if len(su_) != 1:
+                return None
+            cur_ = su_[0]
+        return None
+    flagK = None
+    guard_ok = False
+    if rr:
+        recv_ = mirq.expr_of(q, rr[0][1]["args"][0])
+        for gi, gt in b.calls():
+            rid_, gp, _c = lib.callee_of(gt)
+            if rid_ is None or gt.get("dty") != "bool" or not gt["args"] or not re.search(r"interp::Interpreter::<'a>::\w+$", gp) or gp.endswith("::run_raw"):
+                continue
+            if mirq.expr_of(q, gt["args"][0]) != recv_ or not b.dominates(rr[0][0], gi):
+                continue
+            gb_ = F.bodies.get(rid_)
+            if gb_ is None:
+                continue
+            gq_ = mirq.BodyQ(gb_)
+            loads_ = [(i_, t_, p_) for i_, t_, p_ in gq_.call_sites(r"::load$|Cell::<T>::get$") if re.match(r"^p1\.\d+$", mirq.expr_of(gq_, t_["args"][0]))]
+            others_ = [p_ for i_, t_ in gb_.calls() for p_ in [lib.callee_of(t_)[1]] if not re.search(r"::load$|Cell::<T>::get$|Deref>::deref$", p_ or "")]
+            if len(loads_) != 1 or others_ or any(t_["k"] == "switch" for _, t_ in gb_.terms("switch")):
+                continue
+            sw_ = switch_after(b, gi)
+            if sw_ is None:
+                continue
+            true_t_, false_t_ = sw_
+            if true_t_ != false_t_ and not any(i_ in q.reach(true_t_) for i_, _, _ in wc):
+                flagK = int(mirq.expr_of(gq_, loads_[0][1]["args"][0]).split(".")[1])
+                guard_ok = True
+                chk.ok("R09.8", "check_for_const|no freeze after a run-dependent evaluation", "%s reads Interpreter field %d" % (lib.short(gp), flagK))
+    if not guard_ok:
+        chk.bad("R09.8", "check_for_const|no freeze after a run-dependent evaluation",
+                "check_for_const freezes any successful result without error values in it. A read of a variable that is unbound at compile time can be absorbed on the way: "
+                "`bool(1 in [x])` is frozen to false (x = 1 makes it true), so are `bool({'a': x} == {'a': 1})` and `[1].map(e, 1 in [x])`. The interpreter must record that an unbound "
+                "name was read and the freeze must be refused after such a run", b.file)
+    ia_ = [a_ for a_ in F.adts.values() if a_["path"] == "rscel::interp::interp::Interpreter"]
+    sa_ = [a_ for a_ in F.adts.values() if a_["path"] == "rscel::interp::interp::InterpStack"]
+    ctx_idx_ = [k_ for k_, f_ in enumerate(sa_[0]["variants"][0]["fields"]) if "Interpreter<" in f_["ty"]] if sa_ else []
+    if not ia_ or len(ctx_idx_) != 1:
+        raise lib.MissingAnchor("Interpreter / InterpStack types")
+
+    def flag_stores(body, bq):
+        """blocks of calls that set the mark to true on the interpreter this code runs for"""
+        out_ = []
+        for i_, t_, p_ in bq.call_sites(r"::store$|Cell::<T>::set$|::fetch_or$"):
+            ex_ = [mirq.expr_of(bq, a_) for a_ in t_["args"]]
+            if flagK is not None and len(ex_) >= 2 and re.match(r"^p1\.(?:%d\.)?%d$" % (ctx_idx_[0], flagK), ex_[0]) and ex_[1] == "1":
+                out_.append(i_)
+        return out_
+    # (c) every unbound-name failure of the interpreter is marked
+    n_be = 0
+    for ib_ in sorted((x_ for x_ in F.bodies.values() if x_.pkg == "rscel" and x_.path.startswith(IPFX)), key=lambda x_: x_.path):
+        iq_ = mirq.BodyQ(ib_)
+        # the failure becomes a VALUE the evaluation goes on with (a failed run cannot be frozen anyway)
+        bes_ = [(i_, t_, p_) for i_, t_, p_ in iq_.call_sites(r"CelValue::from_err$") if "CelError::binding(" in mirq.expr_of(iq_, t_["args"][0])]
+        if not bes_:
+            continue
+        st_blocks_ = flag_stores(ib_, iq_)
+        for k_, (i_, t_, p_) in enumerate(bes_):
+            n_be += 1
+            key_ = "%s|unbound read %d is marked" % (lib.short(ib_.path), k_)
+            near_ = [s_ for s_ in st_blocks_ if ib_.dominates(s_, i_) and i_ in iq_.reach(s_)]
+            # the store may also follow the construction of the failure on the same straight line
+            cur_, seen_ = i_, 0
+            while not near_ and seen_ < 6:
+                su_ = [y_ for y_ in ib_.succs(cur_) if not ib_.blocks[y_].get("cleanup")]
+                if len(su_) != 1:
+                    break
+                cur_ = su_[0]
+                seen_ += 1
+                if cur_ in st_blocks_:
+                    near_ = [cur_]
+            if near_:
+                chk.ok("R09.8", key_)
+            else:
+                chk.bad("R09.8", key_, "%s yields the unbound-variable failure for a name without marking the evaluation as run-dependent: a compile-time run that absorbs the failed value "
+                                       "(`1 in [x]`, `has`, `coalesce`, map `==`) is then frozen although binding the name changes the result" % lib.short(ib_.path), ib_.file)
+    chk.floor("R09.8", "unbound-name failures of the interpreter", n_be, 1)
+    # (d) child interpreters share the mark
+    n_ch = 0
+    for ib_ in sorted((x_ for x_ in F.bodies.values() if x_.pkg == "rscel" and x_.path.startswith(IPFX)), key=lambda x_: x_.path):
+        par_ = [k_ for k_ in range(1, ib_.d["arg_count"] + 1) if "interp::Interpreter<" in ib_.local_ty(k_)]
+        if not par_:
+            continue
+        iq_ = mirq.BodyQ(ib_)
+        for i_, a_, v_, s_ in iq_.aggregates(adt_suffix="interp::Interpreter"):
+            n_ch += 1
+            ops_ = [mirq.expr_of(iq_, o_) for o_ in s_["rv"]["ops"]]
+            key_ = "%s|child shares the mark" % lib.short(ib_.path)
+            if flagK is not None and flagK < len(ops_) and any(ops_[flagK] == "p%d.%d" % (k_, flagK) for k_ in par_):
+                chk.ok("R09.8", key_, ops_[flagK])
+            else:
+                chk.bad("R09.8", key_, "an interpreter created on behalf of another (macro bodies run in one) must share its parent's run-dependence mark; field is built from %s: "
+                                       "`[1].map(e, 1 in [x])` would be frozen at compile time" % (ops_[flagK] if flagK is not None and flagK < len(ops_) else "nothing (no mark)"), ib_.file)
+    chk.floor("R09.8", "child interpreter constructions", n_ch, 1)
+    # (e) timestamp from no arguments, wherever the interpreter constructs a type value
+    n_ct = 0
+    for ib_ in sorted((x_ for x_ in F.bodies.values() if x_.pkg == "rscel" and x_.path.startswith(IPFX)), key=lambda x_: x_.path):
+        iq_ = mirq.BodyQ(ib_)
+        cts_ = iq_.call_sites(r"type_funcs::construct_type$")
+        if not cts_:
+            continue
+        consts_ = set()
+        for i_, t_ in ib_.calls():
+            for o_ in t_["args"]:
+                v_ = lib.op_const_str(o_)
+                if v_:
+                    consts_.add(v_)
+        for pb_ in ib_.d.get("promoted") or []:
+            for blk_ in pb_["blocks"]:
+                for st2_ in blk_["stmts"]:
+                    for o_ in lib.iter_operands(st2_):
+                        v_ = lib.op_const_str(o_)
+                        if v_:
+                            consts_.add(v_)
+        stores_ = flag_stores(ib_, iq_)
+        for k_, (i_, t_, p_) in enumerate(cts_):
+            n_ct += 1
+            key_ = "%s|construction %d marks timestamp()" % (lib.short(ib_.path), k_)
+            ex_ = [mirq.expr_of(iq_, a_) for a_ in t_["args"]]
+            # the tests that decide the mark: a comparison of the SAME type name and an emptiness test of the SAME argument list, both before the construction
+            name_tests_ = [j_ for j_, tj_, pj_ in iq_.call_sites(r"PartialEq.*::eq$|::eq$") if ex_ and mirq.expr_of(iq_, tj_["args"][0]) == ex_[0] and ib_.dominates(j_, i_)]
+            empt_tests_ = [j_ for j_, tj_, pj_ in iq_.call_sites(r"::is_empty$|::len$") if len(ex_) > 1 and mirq.expr_of(iq_, tj_["args"][0]) == ex_[1]]
+            good_ = False
+            for s_ in stores_:
+                for nt_ in name_tests_:
+                    sw1_ = switch_after(ib_, nt_)
+                    if sw1_ is None or not ib_.dominates(nt_, s_) or s_ not in iq_.reach(sw1_[0]) or s_ in iq_.reach(sw1_[1], blocked=[nt_]):
+                        continue
+                    for et_ in empt_tests_:
+                        sw2_ = switch_after(ib_, et_)
+                        if sw2_ is None or not ib_.dominates(et_, s_) or s_ not in iq_.reach(sw2_[0]) or s_ in iq_.reach(sw2_[1], blocked=[et_, nt_]):
+                            continue
+                        # name = timestamp and no arguments: the construction is reached through the mark only
+                        if i_ in iq_.reach(s_) and (sw2_[0] == s_ or i_ not in iq_.reach(sw2_[0], blocked=[s_])):
+                            good_ = True
+            if good_ and "timestamp" in consts_:
+                chk.ok("R09.8", key_)
+            else:
+                chk.bad("R09.8", key_, "%s constructs a value of a type named at run time; with the name `timestamp` and no arguments that reads the clock, and the evaluation is not marked "
+                                       "as run-dependent: `type(timestamp('2020-01-01T00:00:00Z'))()`, `[timestamp][0]()` or `{'a': timestamp}.a()` are frozen to the compile-time instant "
+                                       "(reads_clock only sees the spelling `timestamp` directly followed by a call)" % lib.short(ib_.path), ib_.file)
+    chk.floor("R09.8", "type constructions in the interpreter", n_ct, 1)
+    # ---------------- R09.9 reads_clock decided on concrete programs
+    chk.rule("R09.9", "reads_clock(), executed symbolically on concrete code, answers true for every spelling that reaches the clock by name: `now` pushed anywhere (function form, "
+                      "method form `x.now()`, as a value), `timestamp` called with no arguments, and each of these inside nested argument blocks")
+    import symex as sx_
+    BCT = "rscel::interp::types::bytecode::ByteCode"
+    CVT_ = "rscel::types::cel_value::CelValue"
+    CBCT = "rscel::types::cel_byte_code::CelByteCode"
+    if not all(any(a_["path"] == p_ for a_ in F.adts.values()) for p_ in (BCT, CVT_, CBCT)):
+        raise lib.MissingAnchor("ByteCode / CelValue / CelByteCode types")
+
+    class ClockPolicy(_st.LogicPolicy):
+        max_paths = 3000
+
+        def limit_for(self, body, blk):
+            return 12
+
+        def inline(self, path, body):
+            return "cel_byte_code" in path or "{closure" in path or path == rcb.path or _st.LogicPolicy.inline(self, path, body)
+
+    def ident_(n_):
+        return sx_.adt(BCT, "Push", (sx_.adt(CVT_, "Ident", (("s", n_),)),))
+
+    def prog_(*cps_):
+        return sx_.adt(CBCT, "CelByteCode", (("seq", tuple(cps_)),))
+
+    def block_(*cps_):
+        return sx_.adt(BCT, "Push", (sx_.adt(CVT_, "ByteCode", (prog_(*cps_),)),))
+    call0_, call1_, acc_ = sx_.adt(BCT, "Call", (sx_.I(0),)), sx_.adt(BCT, "Call", (sx_.I(1),)), sx_.adt(BCT, "Access", ())
+    utc_ = sx_.adt(BCT, "Push", (sx_.adt(CVT_, "String", (("s", "utc"),)),))
+    one_ = sx_.adt(BCT, "Push", (sx_.adt(CVT_, "Int", (sx_.I(1),)),))
+    base_ = {"now()": [ident_("now"), call0_], "'utc'.now()": [utc_, ident_("now"), acc_, call0_], "now (as a value)": [ident_("now")], "[1, now()]": [one_, ident_("now"), call0_],
+             "now(1)": [one_, ident_("now"), call1_], "timestamp()": [ident_("timestamp"), call0_], "1, timestamp()": [one_, ident_("timestamp"), call0_]}
+    progs_ = {}
+    for k_, cps_ in base_.items():
+        progs_[k_] = cps_
+        progs_["f(%s)" % k_] = [block_(*cps_), ident_("f"), call1_]
+        progs_["f(1, g(%s))" % k_] = [block_(block_(*cps_), ident_("g"), call1_), one_, ident_("f"), sx_.adt(BCT, "Call", (sx_.I(2),))]
+    n_rc = 0
+    for k_, cps_ in sorted(progs_.items()):
+        n_rc += 1
+        try:
+            outs_ = sorted(set(sx_.render(r_) for s_, r_ in sx_.Interp(F, ClockPolicy()).run(rcb, [prog_(*cps_)])))
+        except Exception as e_:
+            outs_ = ["not executable: %s" % str(e_)[:80]]
+        if outs_ == ["1"]:
+            chk.ok("R09.9", "reads_clock|" + k_)
+        else:
+            chk.bad("R09.9", "reads_clock|" + k_, "reads_clock() answers %s for the code of `%s`: the call is then evaluated by the compiler and the compile-time instant is frozen into "
+                                                  "the program" % (outs_, k_), rcb.file)
+    chk.floor("R09.9", "concrete programs", n_rc, 21)
     chk.analysed = {"pairs": npairs, "roots": PAIR_ROOTS, "vm_ops": len(sem)}
     return chk.finish(
         "Fold / VM agreement decided by comparing, per operator template, the folder's term with the symbolic value of the emitted code under the VM arm semantics "
